@@ -411,16 +411,14 @@ def r_ascii_unless_unicode(ctx, repo):
     probes = sorted(set(CW.representative_chars(repo, 'emitter')) | set('é一Ａ５²ǅ\xaa\xb5\U0001F600\x7f\x80'))
     for en in ('prepare_tag', 'prepare_tag_prefix', 'prepare_tag_handle', 'prepare_anchor'):
         f = E.methods.get(en)
-        ec = RE._char_condition(f)
-        if ec is None:
-            raise AnalysisError('%s: character class condition not recognised' % en)
-        bad = [c for c in probes if CW.eval_cond(repo, ec[0], {'ch': c}) is not False and not (0x20 <= ord(c) <= 0x7e)]
+        ec = RE.CharClass(repo, f)
+        bad = [c for c in probes if ec.passes(c) is not False and not (0x20 <= ord(c) <= 0x7e)]
         if bad:
-            rule.fail('%s|non-ascii|%s' % (en, ''.join(bad[:6])), f.module.rel, ec[1].lineno, f.qualname, norm(ec[0])[:90],
+            rule.fail('%s|non-ascii|%s' % (en, ''.join(bad[:6])), f.module.rel, ec.node.lineno, f.qualname, ec.text[:90],
                       '%s writes %s unescaped: output produced without allow_unicode contains non-ASCII characters'
                       % (en, ', '.join(repr(c) for c in bad[:6])))
         else:
-            rule.ok(f.loc(ec[1]), '%s: raw characters are printable ASCII' % en)
+            rule.ok(f.loc(ec.node), '%s: raw characters are printable ASCII' % en)
     # analyze_scalar: non-ASCII => special_characters unless allow_unicode
     f = E.methods.get('analyze_scalar')
     t = norm(f.node)
